@@ -45,6 +45,11 @@ def run(F, rep, tier):
     r2 = rep.rule("R06.2", "operator pairs: table action at every precedence conflict agrees with the FEEL specification's binding levels")
     r3 = rep.rule("R06.3", "token numbering: TokenType discriminants, YY_TRANSLATE, YY_R1/YY_R2, YY_FINAL agree with feel.y")
     r4 = rep.rule("R06.4", "rule -> action -> AST node: reduce() dispatch equals the grammar's actions; operands in source order")
+    # premise (C10): which token a word becomes decides the tree of `for x in a return x in b` - the iteration variable ends at the first `in`, and it is cut out before
+    # the scope is consulted
+    from props import c10
+    c10.first_in_rule(F, rep)
+    c10.variable_before_scope_rule(F, rep)
     g = load_grammar(rep, r1)
     T = load_tables(F, rep, r1)
     if g is None or T is None:
